@@ -43,6 +43,10 @@ PANIC_INDEX = ("core::ops::index::Index<I>>::index", "core::ops::index::IndexMut
                "core::ops::index::IndexMut<Idx>>::index_mut", "core::ops::index::Index<Q>>::index", "core::ops::index::Index<&Q>>::index",
                "core::ops::index::Index<usize>>::index", "core::ops::index::IndexMut<usize>>::index_mut")
 
+# every spelling of an Index/IndexMut call: `<Vec<T> as Index<I>>::index`, `core::str::traits::<impl Index<I> for str>::index`,
+# `core::slice::index::<impl Index<I> for [T]>::index`, HashMap/BTreeMap `Index<&Q>` ...
+INDEX_RE = _re.compile(r"core::ops::index::Index(Mut)?<[^<>]*(<[^<>]*>)?[^<>]*>( for [^>]+)?>::index(_mut)?$")
+
 TRUSTED_DERIVES = ("derive macro:",)
 TRUSTED_OUTER_MACROS = ("macro:log::", "macro:tracing::", "attribute macro:tracing::instrument", "macro:log_instruction", "macro:crate::log_instruction",
                         "macro:$crate::log_instruction", "macro:lazy_static", "macro:thread_local", "macro:$crate::thread::local_impl")
@@ -170,7 +174,7 @@ def panic_sites(F, reach):
                 site = {"kind": "assert", "what": t["kind"], "oty": t["oty"], "ex": t["sp"].get("ex", []), "loc": (t["sp"].get("cs") or t["sp"]["s"]).split(": ")[0], "term": t}
             elif t["k"] == "call":
                 p = norm(t["callee"]["path"])
-                if p in PANIC_CALLEES or suffix_match(p, PANIC_INDEX) or p.startswith("core::panicking::") or INT_OP_RE.match(p):
+                if p in PANIC_CALLEES or suffix_match(p, PANIC_INDEX) or INDEX_RE.search(p) or p.startswith("core::panicking::") or INT_OP_RE.match(p):
                     msg = None
                     for a in t["args"]:
                         c = a.get("const")
